@@ -178,9 +178,9 @@ MayRefuse(ev, pre) ==
   \/ ev.op = "metar_msg" /\ ~pre.hast[ev.arg]
 ExcFails(ev, pre, post, tr) ==
   Chk("C08_OnlyAmpycloudError", ev.exc = "AmpycloudError") \cup
-  Chk("C14_RefusedIntact", ev.op = "construct" \/ StateIntact(pre, post)) \cup
-  Chk("C14_RefusalJustified", ev.op = "construct" \/ MayRefuse(ev, pre)) \cup
-  Chk("C08_Total", ~tr.desc.indomain \/ ev.op = "construct" \/ MayRefuse(ev, pre))
+  Chk("C14_RefusedIntact", ev.op \in {"construct", "run_api"} \/ tr.light \/ StateIntact(pre, post)) \cup
+  Chk("C14_RefusalJustified", ev.op \in {"construct", "run_api"} \/ tr.light \/ MayRefuse(ev, pre)) \cup
+  Chk("C08_Total", ~tr.desc.indomain \/ (ev.op \notin {"construct", "run_api"} /\ ~tr.light /\ MayRefuse(ev, pre)))
 
 (* C14: every present table / message equals the one of the canonical run, the *)
 (* isolated / ncomp column being the fresh or the annotated one according to  *)
@@ -212,12 +212,14 @@ EventFails(i, k) ==
                       THEN TableFails(post.tbl[w], post.ids[F(w)], post.data, prm, post.nrep[w], TRUE)
                       ELSE {} : w \in W }
   IN IF ev.res = "exc" THEN ExcFails(ev, pre, post, tr)
+     ELSE IF tr.light THEN (IF ev.op = "metar_msg" THEN Chk("C01_Grammar", ~tr.desc.grammar \/ C01_Grammar(ev.msg)) \cup Chk("C08_ReturnsString", ev.hasmsg) ELSE {})
      ELSE tabs \cup
        (IF ev.op = "construct" THEN ConstructFails(tr, post)
         ELSE IF ev.op = "find_slices" THEN SliceImpl(ev, post)
         ELSE IF ev.op = "find_groups" THEN
                Chk("C06_Groups", C06_Groups(post.tbl.groups, prm)) \cup GroupImpl(ev, post, prm)
-        ELSE IF ev.op = "find_layers" THEN
+        ELSE IF ev.op \in {"find_layers", "run_api"} THEN
+               (IF ev.op = "run_api" THEN ConstructFails(tr, post) ELSE {}) \cup
                Chk("C05_Partition", C05_Partition(post.data, post.ids)) \cup
                Chk("C05_LayerInOneGroup", C05_LayerInOneGroup(post.ids)) \cup
                Chk("C05_NcompCount", C05_NcompCount(post.tbl.groups, post.ids)) \cup
@@ -234,10 +236,11 @@ EventMarks(i, k) ==
       tabs == UNION { IF post.hast[w] /\ post.has[F(w)] /\ ev.tchg[w]
                       THEN TableMarks(post.tbl[w], post.ids[F(w)], post.data, prm) ELSE {} : w \in W }
   IN IF ev.res = "exc" THEN {"N_exc"}
+     ELSE IF tr.light THEN Mark("N_light", TRUE)
      ELSE tabs \cup
        (IF ev.op = "construct" THEN ConstructMarks(tr, post)
         ELSE IF ev.op = "find_groups" THEN GroupMarks(ev, post, prm)
-        ELSE IF ev.op = "find_layers" THEN LayerMarks(ev, post, prm)
+        ELSE IF ev.op \in {"find_layers", "run_api"} THEN LayerMarks(ev, post, prm) \cup (IF ev.op = "run_api" THEN ConstructMarks(tr, post) ELSE {})
         ELSE IF ev.op = "metar_msg" THEN MsgMarks(ev, post, tr)
         ELSE {})
 
